@@ -18,9 +18,9 @@ CLAIMED = {
         "'count > 0, operation equal, every injected parameter present and equal' (map-range loop with an inductive invariant, all maps, unbounded); Set.match returns the first "
         "matching descriptor or nil iff none matches; Set.Check never fails a non-matching call and changes no counter then, fires the handler exactly once when something matches, "
         "decrements exactly one matching counter by one, and (racing variant: every atomic access may observe an arbitrary value) never calls the handler with a negative remaining count "
-        "and at most once; Set.Add preserves the representation invariant. A pure counting lemma links 'decrement returned >= 0' to min(N, calls).",
+        "and at most once; Set.Add preserves the representation invariant; Set.Current lists exactly the descriptors that still have injections left (nested loops over the map of descriptor lists). A pure counting lemma links 'decrement returned >= 0' to min(N, calls).",
    note="Schedules are not explored: atomic.AddInt64/LoadInt64 linearisability is an assumed axiom; the racing variant models interference by havocking the counter before every atomic access. "
-        "Set.prune/Set.Current (listing after exhaustion) are not under contract yet. "+TRUST,
+        "Set.Current is under contract (the listing shows exactly the descriptors with a positive remaining count, and no operation without any); Set.prune (the in-place clean-up) is not. "+TRUST,
    design="4/C18"),
  "C10": dict(
    text="Deductive proof of the sequential obligations the no-lost-wake-up protocol rests on. W1: actions.WakePublishListeners wakes (closes the one-shot channel of) and unregisters every "
@@ -44,7 +44,7 @@ CLAIMED.update({
         "with the message row of each loaded verbatim; that applyResults copies exactly that message's id, payload, attributes, ordering key and publish time into each result, reports attempt old+1, never repeats a delivery in one response and returns at most MaxMessages; "
         "that publish/dead-letter create deliveries only for subscriptions of the message's topic / the configured dead-letter topic whose filter accepts the message; "
         "and that ack, nack, seek-to-time, seek-to-snapshot and applyResults change deliveries of the addressed subscription / the listed ids only (frame conditions over the deliveries table).",
-   note="entDeliveryToGrpc (JSON payload re-encoding) and the Pull/StreamingPull loops are not under contract; 'the same JSON value' across the database JSON codec is assumed. Isolation between concurrent transactions assumed. "+TRUST,
+   note="entDeliveryToGrpc is under contract (ack id = delivery id, message id, payload bytes, attributes, ordering key, publish time, attempt copied faithfully). The Pull/StreamingPull loops are not; 'the same JSON value' across the database JSON codec is assumed. Isolation between concurrent transactions assumed. "+TRUST,
    design="4/C02"),
  "C03": dict(
    text="Deductive proof of AckDeliveries.Execute: exactly the listed deliveries that are still open are completed (completed_at set to one instant read from the clock), every other delivery row and every other column is unchanged "
